@@ -72,9 +72,11 @@ int main(int argc, char** argv) {
         p.steps = (uint32_t)r.range(3, M.thorough() ? 400 : 120);
         bool zero = (c / 8) % 3 == 0;             // all amplitudes zero: must equal the static map
         int kindmod = (int)((c / 8) % 3);         // 1: pure phase modulation, 2: noise (+ maybe modulation)
+        bool longrun = (c % 97 == 5);             // a few very long pure modulations on a tiny grid (frequency must not drift)
+        if (longrun) { p.n = 16; p.steps = (uint32_t)r.range(40000, M.thorough() ? 300000 : 120000); zero = false; kindmod = 1; }
         p.phasespread = p.amplspread = p.modampl = p.modinc = 0;
         if (!zero) {
-            if (kindmod == 1) { p.modampl = r.logu(1e-4, 0.3); p.modinc = r.logu(1e-4, 0.4); }
+            if (kindmod == 1) { p.modampl = r.logu(1e-4, 0.3); p.modinc = longrun ? r.logu(1e-4, 1e-2) : r.logu(1e-4, 0.4); }
             else { p.phasespread = r.chance(0.7) ? r.logu(1e-6, 1e-2) * std::sqrt(p.revpart) : 0; p.amplspread = r.chance(0.7) ? r.logu(1e-6, 1e-2) * std::sqrt(p.revpart) : 0;
                    if (r.chance(0.5)) { p.modampl = r.logu(1e-4, 0.3); p.modinc = r.logu(1e-4, 0.4); }
                    if (p.phasespread == 0 && p.amplspread == 0 && p.modampl == 0) p.phasespread = 1e-4 * std::sqrt(p.revpart); }
@@ -89,11 +91,12 @@ int main(int argc, char** argv) {
         const double syncphase = p.linear ? 0.0 : (double)(float)std::asin((float)((meshaxis_t)p.V0 / (meshaxis_t)p.V));
         std::vector<std::vector<float>> forces;
         std::vector<std::array<meshaxis_t, 2>> recorded;
-        uint32_t napply = (uint32_t)r.range(1, p.steps);
+        uint32_t napply = longrun ? p.steps : (uint32_t)r.range(1, p.steps);
+        if (longrun) M.ev("long_modulation_runs");
         bool stop = false;
         for (uint32_t k = 0; k < napply && !stop; k++) {
             dyn->apply();
-            forces.emplace_back(dyn->getForce(), dyn->getForce() + p.n);
+            forces.emplace_back(dyn->getForce(), dyn->getForce() + p.n);   // (16 floats per step for the long runs)
             M.ev("applies");
             if (zero) {
                 stat->apply();
@@ -108,7 +111,7 @@ int main(int argc, char** argv) {
                     stop = true;
                 }
             }
-            if (r.chance(0.15) || k + 1 == napply) {      // flush like an output step
+            if (r.chance(longrun ? 0.001 : 0.15) || k + 1 == napply) {      // flush like an output step
                 auto part = dyn->getPastModulation();
                 recorded.insert(recorded.end(), part.begin(), part.end());
                 M.ev("flushes");
